@@ -329,6 +329,11 @@ func checkC19R(r *rt.Run) *rViolation {
 	if !r.FinalSettled || r.H.Sch == nil {
 		return nil
 	}
+	if r.FinalBlocked > 0 {
+		// the worker still sits in a consumer call that only waits on its (term-level) context, e.g. a commit callback: an election
+		// does not cancel that context, so the trigger is pending behind the consumer, not lost. Not judged.
+		return nil
+	}
 	last := -1
 	for i, rec := range r.Records {
 		if rec.Op.K == "trigger" {
